@@ -45,7 +45,7 @@ struct Args {
     removal_marker_tag_name: String,
 
     /// Name of removal-marker to be removed
-    #[arg(long, default_value = "vec![]")]
+    #[arg(long)]
     removal_marker_target_name: Vec<String>,
 
     /// Config file specifying the name of the removal-marker to be removed.
